@@ -518,10 +518,22 @@ class C06(Prop):
             "distinct by hash")
 
     def cases(self, rng, tables, n, tier):
-        return [cache_case(rng, tables) for _ in range(n)]
+        out = []
+        for i in range(n):
+            if i % 3 == 0:
+                # fully conformant streams over 2-3 parsers sharing template ids with different
+                # definitions: every packet is re-decoded by the reference decoder with the
+                # template its own parser received last
+                c = gen.conformant_stream(rng, tables, parsers=rng.choice([2, 3]), few_ids=True)
+                c.gen = "conformant-shared-ids"
+                out.append(c)
+            else:
+                out.append(cache_case(rng, tables))
+        return out
 
     def oracle(self, case, obs, crash, tables):
-        return oracle.c01(case, obs, crash) + oracle.c06(case, obs, crash)
+        return (oracle.c01(case, obs, crash) + oracle.c06(case, obs, crash)
+                + oracle.c04(case, obs, crash, tables) + oracle.c05(case, obs, crash, tables))
 
     def nontrivial(self, case, obs):
         for o in obs:
@@ -603,6 +615,254 @@ class C07(Prop):
         return oracle.c01(case, obs, crash) + oracle.c07(case, obs, crash)
 
 
-ALL = {p.pid: p for p in [C01(), C02(), C03(), C06(), C07(), C08(), C11(), C12(), C14()]}
+def multi_template_case(rng, tables):
+    """an IPFIX template set carrying two template records (normal exporter behaviour), then data"""
+    ex = gen.Exporter(rng, tables, True)
+    t1, f1 = ex.ix_template(256)
+    t2, f2 = ex.ix_template(257)
+    body = be(t1, 2) + be(len(f1), 2) + b"".join(ex.ix_fspec(f) for f in f1) + be(t2, 2) + be(len(f2), 2) + b"".join(ex.ix_fspec(f) for f in f2)
+    msg = gen.ipfix_msg([gen.ipfix_set(2, body)])
+    d = gen.ipfix_msg([gen.ipfix_set(257, b"".join(ex.ix_value(f) for f in f2) or b"\x00")])
+    return Case("ipfix-multi-template", ["P 0", "B 0 " + hexs(msg), "B 0 " + hexs(d)],
+                {"packets": [(0, msg.hex(), None), (0, d.hex(), None)]})
+
+
+class C04(Prop):
+    pid = "C04"
+    keys = ["R", "D", "S"]
+    technique = "Coq: print-then-parse for values (every supported data type x width), records, data flowsets (record count and padding) and template records against Spec/Interp.v; generated type tables; correspondence + independent RFC 3954 reference decoder"
+    level_text = ("Theorems C04_* (coq/Props/C04.v): for every supported (data type, width) the decoder returns the big-endian interpretation of exactly "
+                  "the allotted bytes (Spec/Interp.v); a record is its values in template order; a data flowset body of ANY number of records plus padding "
+                  "shorter than a record decodes to exactly those records, in order, with that padding; template records are reported as sent; the flowset "
+                  "envelope delimits the body by length-4 and selects the template cached just before it; header read at the RFC offsets. Partial: the "
+                  "composition into a whole-stream theorem parse(encode P) = decoded P (multi-flowset packets, options data) is covered by the reference "
+                  "decoder on generated streams, not yet by one theorem.")
+    level_note = "whole-stream composition and options-data records are compared against the independent reference decoder (tools/refdec.py), not proved"
+    partial = "theorems are per value / record / data flowset / template record / envelope; the packet-level composition and options data are checked against tools/refdec.py"
+    rule = ("RFC 3954-conformant streams from a random exporter (1-6 flowsets per packet, 1-3 templates per template flowset, every known field type and "
+            "unknown ones, all supported widths, 0-40 records, padding 0-3, options templates and options data, redefinitions), 1-2 parsers, packets "
+            "grouped into calls at random; every packet re-decoded by the independent reference decoder; non-trivial = at least one data record "
+            "decoded; distinct by hash")
+
+    def cases(self, rng, tables, n, tier):
+        return [gen.conformant_stream(rng, tables, versions=(9, 9, 9, 5), parsers=rng.choice([1, 1, 2])) for _ in range(n)]
+
+    def oracle(self, case, obs, crash, tables):
+        return oracle.c01(case, obs, crash) + oracle.c04(case, obs, crash, tables)
+
+    def nontrivial(self, case, obs):
+        for o in obs:
+            R = get(o, "R")
+            if isinstance(R, list) and not isinstance(R, canon.Pairs):
+                for e in R:
+                    if oracle.elem_kind(e) in ("V9", "IPFix"):
+                        for fs in get(oracle.elem_body(e), "flowsets"):
+                            b = get(fs, "body")
+                            if b[0][0] == "Data" and len(get(b[0][1], "fields")) > 0:
+                                return True
+        return False
+
+
+class C05(C04):
+    pid = "C05"
+    technique = "Coq: print-then-parse for fixed, enterprise and variable-length (1- and 3-byte prefix) values against Spec/Interp.v, record consumption accounting for the record loop, message/set envelopes; generated type tables; correspondence + independent RFC 7011 reference decoder"
+    level_text = ("Theorems C05_* (coq/Props/C05.v): fixed-length values are the interpretation of exactly the declared bytes, enterprise values the bytes "
+                  "verbatim, variable-length values take their length from the 1-byte or 0xFF+2-byte prefix; one pass over the template consumes exactly "
+                  "the bytes it reports (so consecutive records are contiguous); all sets inside the message length are visited, each on length-4 bytes; a "
+                  "data set uses the template cached just before it; header at the RFC offsets. Partial: the whole-stream composition is checked against "
+                  "the reference decoder, not proved as one theorem.")
+    level_note = "template sets with more than one record (known finding K_C05_multi_template) and 8/16-byte signed values (K_C05_signed_wide) are excluded; composition checked against tools/refdec.py"
+    rule = ("RFC 7011-conformant message streams (template / options-template / data sets in any order, enterprise fields, variable-length fields in "
+            "short and long form, zero-length values, all supported widths, 1-40 records, padding), plus one case with two template records in one "
+            "template set; every message re-decoded by the independent reference decoder; non-trivial = at least one data value decoded; distinct by hash")
+
+    def cases(self, rng, tables, n, tier):
+        return [multi_template_case(rng, tables)] + [gen.conformant_stream(rng, tables, versions=(10, 10, 10, 7), parsers=rng.choice([1, 1, 2])) for _ in range(n)]
+
+    def oracle(self, case, obs, crash, tables):
+        return oracle.c01(case, obs, crash) + oracle.c05(case, obs, crash, tables)
+
+
+LOSSLESS_V9 = ["UnsignedDataNumber", "Ip4Addr", "Ip6Addr", "Vec", "ProtocolType"]
+LOSSLESS_IX = ["UnsignedDataNumber", "Ip4Addr", "Ip6Addr", "Vec", "Float64"]
+
+
+class LosslessExporter(gen.Exporter):
+    """templates over the value kinds whose re-export is exact (so any difference is new)"""
+
+    def v9_field(self):
+        rng = self.rng
+        if rng.random() < 0.15:
+            num = rng.choice([43, 51, 59, 65, 97, 101, 300, 40000])      # unknown types: bytes kept verbatim
+            return (num, rng.choice([1, 2, 3, 5, 8, 20]))
+        dt = rng.choice(LOSSLESS_V9)
+        num = rng.choice(self.t.v9_by_dtype[dt])
+        ln = rng.choice(gen.NATURAL[dt]) if dt in gen.NATURAL else rng.choice([1, 2, 3, 4, 7, 16, 33])
+        return (num, ln)
+
+    def ix_field(self):
+        rng = self.rng
+        k = rng.random()
+        if k < 0.2:
+            return (rng.randrange(32768), rng.choice([1, 2, 4, 8, 20]), rng.choice([0, 9, 29305, 0xFFFFFFFF]))
+        if k < 0.3:
+            return (rng.choice([0, 105, 491, 503, 1000, 32767]), rng.choice([1, 2, 4, 9]), None)
+        dt = rng.choice(LOSSLESS_IX)
+        num = rng.choice(self.t.ipfix_by_dtype[dt])
+        ln = rng.choice(gen.NATURAL[dt]) if dt in gen.NATURAL else rng.choice([1, 2, 3, 4, 7, 16, 33])
+        return (num, ln, None)
+
+
+def export_case(rng, tables, version):
+    lossless = rng.random() < 0.6
+    ex = (LosslessExporter if lossless else gen.Exporter)(rng, tables, rng.random() < 0.85)
+    if lossless:
+        # the generic data path draws protocol values from the named ones; 145 (-> 255) is the lossy one
+        tables_ok = set(n for n in tables.proto_parse_ok if n <= 144 or n == 255)
+        ex.t = tables
+        saved = tables.proto_parse_ok
+    ops = ["P 0"]
+    for _ in range(rng.choice([1, 2, 3, 4])):
+        buf = b""
+        for _ in range(rng.choice([1, 1, 2])):
+            b, _d = gen.rand_packet(rng, ex, (version, version, version, 5))
+            buf += b
+        ops.append("B 0 " + hexs(buf))
+    return Case("export-lossless" if lossless else "export-any", ops)
+
+
+class C09(Prop):
+    pid = "C09"
+    keys = ["R", "X", "D"]
+    technique = "Coq: parse-then-print per value kind (class predicate exact_dtype defined once in Coq), per template / options-template record and per flowset envelope, for ALL accepted inputs; correspondence on X and D; oracle with the same classes"
+    level_text = ("Theorems C09_* (coq/Props/C09.v): for every accepted value whose (data type, width, bytes) satisfies exact_dtype, to_be_bytes returns "
+                  "exactly the bytes consumed; template and options-template records re-export exactly for every accepted input; the flowset envelope is "
+                  "id, length, body; re-export of parser output never panics (C01) and fails only for durations beyond u32 seconds. The lossy kinds "
+                  "(durations other than 4-byte seconds, MAC addresses, invalid UTF-8, protocol 145) are the known-finding classes, each with a refuting "
+                  "witness. Partial: the composition over whole packets is covered by correspondence on X, not one theorem.")
+    level_note = "classes K_C09_* are defined by exact_dtype (Coq) and mirrored in tools/oracle.py; packet-level composition by correspondence"
+    partial = "value / record / envelope level theorems; whole-packet identity checked by correspondence and oracle"
+    rule = ("V9 streams, 60% over lossless value kinds only (unsigned 1/2/3/4/8/16, IPv4/6, vectors, unknown types, named protocols) so that any "
+            "difference is a new one, 40% over all kinds (exercising the known classes); 0-3 padding bytes, several flowsets of every kind per packet; "
+            "non-trivial = a V9 packet with at least one data record re-exported; distinct by hash")
+
+    def cases(self, rng, tables, n, tier):
+        return [export_case(rng, tables, 9) for _ in range(n)]
+
+    def oracle(self, case, obs, crash, tables):
+        return oracle.c01(case, obs, crash) + oracle.c09(case, obs, crash)
+
+    def nontrivial(self, case, obs):
+        return C04.nontrivial(self, case, obs)
+
+
+class C10(C09):
+    pid = "C10"
+    keys = ["R", "X", "D", "S"]
+    level_text = ("Theorems C10_* (coq/Props/C10.v): value-level exactness as C09 (shared predicate) for fixed-length and enterprise fields; template and "
+                  "options-template records re-export exactly including the enterprise bit and enterprise number (print-then-parse of the field "
+                  "specifier); message and set envelopes. Classes: the C09 value kinds, signed integers of width 1/2/8/16 (widened), variable-length "
+                  "fields (prefix not retained), sets dropped after an undecodable set. Partial as C09.")
+    level_note = "classes K_C10_* mirrored in tools/oracle.py; message-level composition by correspondence"
+    rule = ("IPFIX streams, 60% over lossless fixed-length kinds and enterprise fields, 40% over all kinds including variable-length fields; several "
+            "sets per message; non-trivial = a message with at least one data value re-exported; distinct by hash")
+
+    def cases(self, rng, tables, n, tier):
+        return [export_case(rng, tables, 10) for _ in range(n)]
+
+    def oracle(self, case, obs, crash, tables):
+        return oracle.c01(case, obs, crash) + oracle.c10(case, obs, crash, tables)
+
+
+def common_case(rng, tables):
+    ex = gen.Exporter(rng, tables, True)
+    seq = gen.packet_sequence(rng, tables, npk=rng.choice([1, 2, 3, 4]), ex=ex)
+    if rng.random() < 0.2:
+        seq.insert(rng.randrange(len(seq) + 1), (b"\x00\x09\x00", 9, "garbage"))
+    buf = b"".join(b for b, _v, _d in seq)
+    return Case("common", ["P 0", "P 1", "B 0 " + hexs(buf), "F 1 " + hexs(buf)])
+
+
+class C13(Prop):
+    pid = "C13"
+    keys = ["R", "C", "F"]
+    technique = "Coq: the common view of V5/V7 is the field-wise projection of each record (all present), the flat view is the in-order concatenation over non-error packets, errors convert to an error; correspondence on C and F; oracle projecting R"
+    level_text = ("Theorems C13_* (coq/Props/C13.v): for V5/V7 the common structure is version, sys_up_time and one flow per record, in order, every "
+                  "numeric field present and equal to the record's field, MACs absent; for V9/IPFIX one flow per decoded record map built by selecting "
+                  "fields by type (last of a type wins), IPv4 before IPv6; error elements convert to an error; the flat view is the in-order concatenation "
+                  "of the flows of the non-error packets. Known classes (crate deviations): V9 protocol and first/last decoded as non-numeric kinds, "
+                  "ports of width other than 2, IPFIX one flow per field.")
+    level_note = "the V9/IPFIX theorems describe the selection the conversion performs on what the decoders produce; the deviations from the property are classes K_C13_*"
+    rule = ("conformant sequences of 1-4 packets (templates with random subsets and orders of the projected fields, both address families), sometimes "
+            "with a garbage packet in the middle; parser 0 gets parse_bytes + as_netflow_common, parser 1 parse_bytes_as_netflow_common_flowsets on "
+            "the same buffer; non-trivial = at least one flow produced; distinct by hash")
+
+    def cases(self, rng, tables, n, tier):
+        return [common_case(rng, tables) for _ in range(n)]
+
+    def oracle(self, case, obs, crash, tables):
+        return oracle.c01(case, obs, crash) + oracle.c13(case, obs, crash, tables)
+
+    def nontrivial(self, case, obs):
+        for o in obs:
+            for c in get(o, "C") or []:
+                if c not in ("ERR", "PANIC") and len(get(c, "flows")) > 0:
+                    return True
+        return False
+
+
+class C15(Prop):
+    pid = "C15"
+    keys = ["R"]
+    technique = "Coq: output-size bounds by induction (records x record size <= bytes present, per version), count/length fields enter only through bytes actually consumed; counting global allocator in the harness against a linear bound; blow-ups as classes"
+    level_text = ("Theorems C15_* (coq/Props/C15.v): the number of V5/V7 records times 48/52 plus 24 is at most the buffer length; a V9 data flowset holds "
+                  "at most body/size records; every IPFIX record pass consumes at least one byte, so a data set holds at most |body| passes; every decoded "
+                  "packet's wire length is at most the bytes present (no announced-but-absent bytes are ever materialised). Partial: allocator behaviour "
+                  "is measured by a counting allocator against 4096 + 600*|x| + 40*|serialized result| on the stress families, not proved; the known "
+                  "super-linear behaviours (copy of the remaining buffer per chained packet, V9 retry loop, zero-length-field inflation) are classes.")
+    level_note = "allocator rounding, Vec growth and BTreeMap nodes are outside the model; the linear bound's constants are calibrated on the unchanged tree"
+    partial = "heap bytes are measured, not proved; quadratic behaviours are known findings"
+    rule = ("stress families (count/length 65535 over short bodies, maximal chained packets / sets / records / templates / fields) plus mixed streams; "
+            "bytes requested from a counting global allocator during each parse_bytes call against a linear bound in input length and serialized "
+            "result size; non-trivial = decodes at least one packet; distinct by hash")
+
+    def cases(self, rng, tables, n, tier):
+        return gen.stress_cases(rng, big=(tier == "thorough")) + [mixed_case(rng, tables) for _ in range(n)]
+
+    def oracle(self, case, obs, crash, tables):
+        return oracle.c01(case, obs, crash) + oracle.c15(case, obs, crash)
+
+
+class C17(Prop):
+    pid = "C17"
+    keys = ["R", "X", "C", "S"]
+    puf = False
+    technique = "Coq: the model run with puf = false equals the run with puf = true on known-only templates, and decodes no record containing an unknown field; both cfg arms and the call site regenerated from source; correspondence against a --no-default-features build"
+    level_text = ("Theorems C17_* (coq/Props/C17.v): from_field_type with the feature off equals the feature-on decoder on every data type except Unknown, "
+                  "hence records / data flowsets over known-only templates decode identically; a V9 record or IPFIX record containing an unknown field "
+                  "fails, so nothing of it is reported as decoded data; the two cfg arms of parse_unknown_fields and its call site have the same arity "
+                  "(regenerated). Partial: that the crate compiles with --no-default-features is observed by building the harness against it.")
+    level_note = "compilation is observed (cargo build --no-default-features of the harness), not proved"
+    partial = "'the crate builds' is a fact about cargo, checked by building"
+    rule = ("the conformant V9/IPFIX streams of C04/C05 run against the harness built with --no-default-features and the model with puf = false; the "
+            "default build runs the same ops for comparison on known-only inputs; non-trivial = at least one data record decoded; distinct by hash")
+
+    def cases(self, rng, tables, n, tier):
+        return [gen.conformant_stream(rng, tables, versions=(9, 10, 9, 10, 5), parsers=1) for _ in range(n)]
+
+    def prepare(self, cases, work, core):
+        """run the default build on the same cases; keep its observations for the oracle"""
+        res = core.run_both(cases, work + "-default", puf=True, want_model=False, timeout=600)
+        for c, r, _m, _crash in res:
+            c.meta["default_obs"] = r
+
+    def oracle(self, case, obs, crash, tables):
+        return oracle.c01(case, obs, crash) + oracle.c17(case, obs, crash, tables)
+
+    def nontrivial(self, case, obs):
+        return C04.nontrivial(self, case, obs)
+
+
+ALL = {p.pid: p for p in [C01(), C02(), C03(), C04(), C05(), C06(), C07(), C08(), C11(), C12(), C14()]}
 
 NOT_CLAIMED = {}
